@@ -97,3 +97,175 @@ Ltac dmatch :=
     end
   end.
 
+Lemma enter_commit_hook w n :
+  (aborted w = true -> s_ctx w = true) ->
+  let st := {| h_open := true; h_stage := if aborted w then SAborted else SCleanup; h_ending := ending w;
+               h_failed := if aborted w then false else negb (s_spawned w);
+               h_claims := if aborted w then [] else map proj (s_claims w) |} in
+  accept hook_step st (snd (enter_commit w n)) = Some (habs (fst (enter_commit w n))) /\ hside (fst (enter_commit w n)).
+Proof.
+  destruct w; unfold enter_commit; cbn [Model.s_claims]. intros Hc.
+  destruct n as [|n]; [|destruct (dirty_blocks s_claims)];
+    unfold aborted, ending, habs, hside, late in *; cbn in *; destruct s_res; cbn; try (rewrite Hc by reflexivity); auto.
+Qed.
+
+
+
+Ltac uf := unfold habs, hside, late, aborted, ending, ret, retry_or, enter_new_session, enter_manage, claim_exit, hb_exit, in_call, claims_live, new_call, new_session in *.
+Ltac rw := repeat match goal with H : ?x = _ |- context [?x] => rewrite H end.
+Ltac fin := repeat (match goal with
+  | H : _ /\ _ |- _ => destruct H
+  | |- _ /\ _ => split
+  | |- _ -> _ => intro
+  end); rw; cbn; rewrite ?orb_true_r, ?orb_false_r; cbn; try congruence; auto;
+  try (repeat (dmatch; cbn; rw; cbn); rewrite ?orb_true_r, ?orb_false_r; cbn; try congruence; auto; fail).
+Ltac split_step :=
+  repeat (cbn [fst snd]; match goal with
+  | |- context [snd ?X] =>
+    match X with
+    | context [match ?x with _ => _ end] =>
+      lazymatch x with
+      | context [match _ with _ => _ end] => fail
+      | context [enter_commit] => fail
+      | _ => destruct x eqn:?
+      end
+    end
+  end).
+
+Lemma live_inv w : claims_live w = true -> (w_phase w = PRunning \/ w_phase w = PReleasing) /\ s_spawned w = true.
+Proof. unfold claims_live. destruct (s_spawned w), (w_phase w); cbn; intros; try discriminate; auto. Qed.
+
+Definition live_hs (e : bool) (l : list (part * cstate)) : hs :=
+  {| h_open := true; h_stage := SSetup; h_ending := e; h_failed := false; h_claims := l |}.
+Lemma habs_live w : claims_live w = true -> habs w = live_hs (ending w) (map proj (s_claims w)).
+Proof. intros H; destruct (live_inv w H) as [[Hp|Hp] Hs]; unfold habs, live_hs; rewrite Hp, Hs; reflexivity. Qed.
+Lemma habs_set_claims w cls : claims_live w = true -> habs (set_claims w cls) = live_hs (ending w) (map proj cls) /\ (hside w -> hside (set_claims w cls)).
+Proof. intros H; destruct (live_inv w H) as [[Hp|Hp] Hs]; unfold habs, hside, live_hs, aborted, ending; cbn; rewrite Hp, Hs; auto. Qed.
+Lemma habs_claim_exit w c : claims_live w = true ->
+  habs (claim_exit w c) = live_hs true (map proj (claim_put (s_claims w) (with_state c CDone))) /\ (hside w -> hside (claim_exit w c)).
+Proof. intros H; destruct (live_inv w H) as [[Hp|Hp] Hs]; unfold habs, hside, live_hs, aborted, ending, claim_exit; cbn; rewrite Hp, Hs; cbn; intuition. Qed.
+
+Lemma hook_sim_claimgo cf w p created : hside w ->
+  accept hook_step (habs w) (snd (step cf w (IClaimGo p created))) = Some (habs (fst (step cf w (IClaimGo p created)))) /\ hside (fst (step cf w (IClaimGo p created))).
+Proof.
+  intros Hs. cbn [step]. destruct (claims_live w) eqn:Hl; [|cbn; auto].
+  destruct (claim_find (s_claims w) p) as [c|] eqn:Hf; [|cbn; auto].
+  pose proof (claim_find_part _ _ _ Hf) as Hp.
+  destruct (cl_state c) eqn:Hc; try (cbn; auto; fail).
+  assert (Hsf : sfind (map proj (s_claims w)) p = Some CSpawned) by (rewrite sfind_proj, Hf; cbn; now rewrite Hc).
+  rewrite (habs_live w Hl).
+  destruct (ending w) eqn:He.
+  - cbn [fst snd]. destruct (habs_claim_exit w c Hl) as [-> Hh]. split; [|auto].
+    cbn. rewrite Hsf. cbn. rewrite proj_put. cbn. now rewrite Hp.
+  - destruct (log_get (w_log w) p) as [lo hi].
+    destruct (if created then claim_offset cf (cl_pom c) lo hi else None) as [o|].
+    + cbn [fst snd]. destruct (habs_set_claims w (claim_put (s_claims w) (started_at c (resolve o lo hi))) Hl) as [-> Hh]. split; [|auto].
+      cbn. rewrite Hsf. cbn. rewrite proj_put. cbn. now rewrite Hp, He.
+    + cbn [fst snd]. destruct (habs_claim_exit w c Hl) as [-> Hh]. split; [|auto].
+      cbn. rewrite Hsf. cbn. rewrite proj_put. cbn. now rewrite Hp.
+Qed.
+
+Lemma proj_put_same cls p c c' : claim_find cls p = Some c -> cl_part c' = cl_part c -> cl_state c' = cl_state c ->
+  map proj (claim_put cls c') = map proj cls.
+Proof.
+  intros Hf Hp Hs. rewrite proj_put, Hp, Hs. apply sput_same.
+  rewrite sfind_proj. rewrite (claim_find_part _ _ _ Hf). now rewrite Hf.
+Qed.
+
+Lemma hook_sim_deliver cf w p : hside w ->
+  accept hook_step (habs w) (snd (step cf w (IDeliver p))) = Some (habs (fst (step cf w (IDeliver p)))) /\ hside (fst (step cf w (IDeliver p))).
+Proof.
+  intros Hs. cbn [step]. destruct (claims_live w) eqn:Hl; [|cbn; auto].
+  destruct (claim_find (s_claims w) p) as [c|] eqn:Hf; [|cbn; auto].
+  pose proof (claim_find_part _ _ _ Hf) as Hp.
+  destruct (cl_state c) eqn:Hc; try (cbn; auto; fail).
+  assert (Hsf : sfind (map proj (s_claims w)) p = Some CRunning) by (rewrite sfind_proj, Hf; cbn; now rewrite Hc).
+  match goal with |- context [if ?b then _ else _] => destruct b end; [|cbn; auto].
+  cbn [fst snd]. rewrite (habs_live w Hl).
+  match goal with |- context [set_claims w ?l] => destruct (habs_set_claims w l Hl) as [-> Hh] end.
+  split; [|auto]. cbn. rewrite Hsf. cbn. f_equal. unfold live_hs. f_equal.
+  symmetry. eapply proj_put_same; eauto.
+  - cbn. match goal with |- context [if ?b then _ else _] => destruct b end; cbn; auto. unfold mark. destruct (_ >? _); cbn; auto.
+  - cbn. match goal with |- context [if ?b then _ else _] => destruct b end; cbn; auto. unfold mark. destruct (_ >? _); cbn; auto.
+Qed.
+
+Lemma hook_sim_claimret cf w p : hside w ->
+  accept hook_step (habs w) (snd (step cf w (IClaimReturn p))) = Some (habs (fst (step cf w (IClaimReturn p)))) /\ hside (fst (step cf w (IClaimReturn p))).
+Proof.
+  intros Hs. cbn [step]. destruct (claims_live w) eqn:Hl; [|cbn; auto].
+  destruct (claim_find (s_claims w) p) as [c|] eqn:Hf; [|cbn; auto].
+  pose proof (claim_find_part _ _ _ Hf) as Hp.
+  destruct (cl_state c) eqn:Hc; try (cbn; auto; fail).
+  assert (Hsf : sfind (map proj (s_claims w)) p = Some CRunning) by (rewrite sfind_proj, Hf; cbn; now rewrite Hc).
+  match goal with |- context [if ?b then _ else _] => destruct b end; [|cbn; auto].
+  cbn [fst snd]. rewrite (habs_live w Hl). destruct (habs_claim_exit w c Hl) as [-> Hh]. split; [|auto].
+  cbn. rewrite Hsf. cbn. rewrite proj_put. cbn. now rewrite Hp.
+Qed.
+
+Lemma accept_stored h bs : accept hook_step h (stored_events bs) = Some h.
+Proof. induction bs as [|b r IH]; cbn; auto. Qed.
+
+Lemma hook_sim_fetch cf w ok : hside w ->
+  accept hook_step (habs w) (snd (step cf w (IFetch ok))) = Some (habs (fst (step cf w (IFetch ok)))) /\ hside (fst (step cf w (IFetch ok))).
+Proof.
+  intros Hs. cbn [step]. destruct (w_phase w) eqn:Hph; try (cbn; auto; fail).
+  destruct todo as [|p todo]; [cbn; auto|].
+  unfold hside in Hs; rewrite Hph in Hs. destruct Hs as [Ha Hsp].
+  match goal with |- context [if ?b then _ else _] => destruct b end.
+  - cbn [fst snd]. unfold habs at 1. rewrite Hph. unfold enter_manage.
+    destruct todo as [|q todo]; unfold habs, hside, aborted, ending in *; cbn in *; rewrite ?map_app; cbn; rewrite <- ?app_assoc; cbn; auto.
+  - pose proof (enter_commit_hook (set_res (set_ctx w) RFetchErr) (c_commit_attempts cf)) as H.
+    destruct (enter_commit (set_res (set_ctx w) RFetchErr) (c_commit_attempts cf)) as [w' e].
+    cbn [fst snd] in *. unfold habs at 1. rewrite Hph. cbn. apply H. reflexivity.
+Qed.
+
+Lemma hook_sim_cleanup cf w : hside w ->
+  accept hook_step (habs w) (snd (step cf w ICleanup)) = Some (habs (fst (step cf w ICleanup))) /\ hside (fst (step cf w ICleanup)).
+Proof.
+  intros Hs. cbn [step]. destruct (w_phase w) eqn:Hph; try (cbn; auto; fail).
+  destruct (all_done w) eqn:Hd; [|cbn; auto].
+  unfold hside in Hs; rewrite Hph in Hs. destruct Hs as [Ha Hc].
+  match goal with |- context [enter_commit ?w1 ?n] => pose proof (enter_commit_hook w1 n) as H; destruct (enter_commit w1 n) as [w' e] end.
+  cbn [fst snd] in *. unfold habs at 1. rewrite Hph. cbn.
+  unfold ending. rewrite Hc. cbn. unfold all_done in Hd. rewrite forallb_sdone, Hd. cbn.
+  unfold aborted in *.
+  destruct (hd_cleanup_ok (s_handler w)); [|destruct (s_res w) eqn:Hr]; cbn in *; unfold ending in H; cbn in H; rewrite ?Ha, ?Hc, ?Hr in H; cbn in H;
+    try discriminate; apply H; intros; discriminate.
+Qed.
+
+Lemma hook_sim_commit cf w ok : hside w ->
+  accept hook_step (habs w) (snd (step cf w (ICommit ok))) = Some (habs (fst (step cf w (ICommit ok)))) /\ hside (fst (step cf w (ICommit ok))).
+Proof.
+  intros Hs. cbn [step]. destruct (w_phase w) eqn:Hph; try (cbn; auto; fail).
+  destruct n as [|n]; [cbn; auto|].
+  unfold hside in Hs; rewrite Hph in Hs.
+  destruct ok.
+  - match goal with |- context [enter_commit ?w1 ?n] => pose proof (enter_commit_hook w1 n) as H; destruct (enter_commit w1 n) as [w' e] end.
+    cbn [fst snd] in *. unfold habs at 1. rewrite Hph. cbn. rewrite accept_app, accept_stored.
+    unfold late. unfold aborted, ending in *. cbn in H. rewrite proj_clean in H. destruct (s_res w); apply H; auto.
+  - match goal with |- context [enter_commit ?w1 ?n] => pose proof (enter_commit_hook w1 n) as H; destruct (enter_commit w1 n) as [w' e] end.
+    cbn [fst snd] in *. unfold habs at 1. rewrite Hph. cbn.
+    unfold late. unfold aborted, ending in *. destruct (s_res w); apply H; auto.
+Qed.
+
+Lemma hook_sim cf w i : hside w ->
+  accept hook_step (habs w) (snd (step cf w i)) = Some (habs (fst (step cf w i))) /\ hside (fst (step cf w i)).
+Proof.
+  intros Hs. pose proof Hs as Hs0.
+  destruct i; try (now apply hook_sim_claimgo); try (now apply hook_sim_deliver); try (now apply hook_sim_claimret);
+    try (now apply hook_sim_fetch); try (now apply hook_sim_cleanup); try (now apply hook_sim_commit).
+  all: cbn [step]; destruct (w_phase w) eqn:Hph; try (cbn; split; [reflexivity | exact Hs0]).
+  all: unfold retry_or, ret.
+  all: split_step; cbn [fst snd]; uf; rewrite ?Hph in *; cbn; fin.
+Qed.
+
+Lemma hook_run cf ins w : hside w ->
+  accept hook_step (habs w) (snd (run cf w ins)) = Some (habs (fst (run cf w ins))) /\ hside (fst (run cf w ins)).
+Proof. apply (sim_accept hook_step habs hside cf). intros; now apply hook_sim. Qed.
+
+(* every trace of the member, from the initial state, under every input list, respects the hook order *)
+Theorem hook_order_holds cf st lg ins : hook_ok (trace cf (init_world st lg) ins).
+Proof.
+  unfold hook_ok, trace. destruct (hook_run cf ins (init_world st lg)) as [H _]; [exact I|].
+  change (habs (init_world st lg)) with hs_idle in H. rewrite H. discriminate.
+Qed.
